@@ -1062,6 +1062,21 @@ func writeExpr(sb *strings.Builder, n ast.Node) {
 		}
 	case *ast.ExprStmt:
 		writeExpr(sb, x.X)
+	case *ast.ReturnStmt:
+		sb.WriteString("return")
+		for i, r := range x.Results {
+			if i == 0 {
+				sb.WriteString(" ")
+			} else {
+				sb.WriteString(", ")
+			}
+			writeExpr(sb, r)
+		}
+	case *ast.BranchStmt:
+		sb.WriteString(x.Tok.String())
+		if x.Label != nil {
+			sb.WriteString(" " + x.Label.Name)
+		}
 	default:
 		fmt.Fprintf(sb, "<%T>", n)
 	}
